@@ -39,6 +39,11 @@ def classes_of(lines):
                 others = [x for x in nodes if x[0] in ('optional', 'rep') and x is not n and x not in list(walk(n))]
                 if len(body) > 1 and others:
                     cl.add("group-repeat-beside-optional")
+        # two repeated elements in one pattern (neither inside the other): both are sized from the same count, so argument
+        # vectors in which both repeat more than once are rejected (`prog <y>... a <x>...` rejects `b a b b`)
+        reps = [n for n in nodes if n[0] == 'rep']
+        if any(r1 is not r2 and not any(z is r2 for z in walk(r1)) and not any(z is r1 for z in walk(r2)) for r1 in reps for r2 in reps):
+            cl.add("two-repeated-elements")
         names = [x[1] for x in walk(l) if x[0] == 'pos']
         if len(names) != len(set(names)):
             cl.add("same-positional-twice")
